@@ -236,6 +236,13 @@ func (w *World) execOp(t int, op OpM) (out func() string) {
 		eb := w.expanded[op.Target%len(w.expanded)]
 		v, d := hcldec.Decode(eb, w.spec, ctx)
 		return func() string { return "shared_expand_decode " + dumpVal(v) + " !" + dumpDiags(d) }
+	case "gen_decode":
+		be, ok := w.genBody(op.Target)
+		if !ok {
+			return func() string { return "gen_decode: no generated blocks" }
+		}
+		v, d := hcldec.Decode(be.body, w.nested[be.kind], ctx)
+		return func() string { return "gen_decode " + be.kind + " " + dumpVal(v) + " !" + dumpDiags(d) }
 	case "dec_vars":
 		tv := hcldec.Variables(root(), w.spec)
 		return func() string { return "dec_vars " + dumpTraversals(tv) }
